@@ -17,6 +17,16 @@ CLAIMED = {
             "decides guard presence/shape, not which exception type torch raises for delegated cases; domain assumption "
             "d >= 1; RAISE-TABLE is a frozen table confirmed by reading (89 entries)",
             "DESIGN.md section 4 C18"),
+    "C06": ("interprocedural alias/mutation effect analysis (origins of tensors, views and lists; bottom-up summaries "
+            "over the resolved call graph; who-may-write rule against the documented in-place API)",
+            "For every public entry point and every parameter the summary must contain no in-place tensor write, "
+            "subscript/attribute store or list mutation on an object reachable from that parameter (views and shallow "
+            "copies keep the operand's storage as origin), except the documented in-place API (set_core, reduce_dims, "
+            "grad.watch/unwatch). Because no operand is ever written, results sharing storage with operands keep their "
+            "value over any later history (inductive argument over all call sequences).",
+            "decides writes performed by repository code; user callbacks, the C++ extension and user code holding "
+            "t.cores are assumed not to write; one named exception (amen_divide final rescale, re-verified each run)",
+            "DESIGN.md section 4 C06, section 3 E3"),
 }
 
 NOT_APPLICABLE = {
